@@ -22,8 +22,10 @@ SHAPES = {
     "tchain": [("a", 0.5, "b", True), ("b", 0.25, "c", False), ("c", 0.125, None, False)],
     # branch: first state chooses; both arms timed
     "branch": [("s0", None, None, True), ("l", 0.5, "e", False), ("r", 0.25, "e", False), ("e", None, None, False)],
+    "inherit": [("s0", None, None, True), ("s1", 1.0, "s2", False), ("s2", 0.5, None, False)],
 }
-TARGETS = {"chain": ["s1", "s2"], "loop": ["a", "b"], "tchain": ["b", "a"], "branch": ["l", "r"]}
+# "inherit": the chain's states live in a base class, the concrete mode only adds the last one
+TARGETS = {"inherit": ["s1", "s2"], "chain": ["s1", "s2"], "loop": ["a", "b"], "tchain": ["b", "a"], "branch": ["l", "r"]}
 _ID = [0]
 
 
@@ -66,13 +68,20 @@ def build_mode(shape, variant, H, name):
 
     ns = dict(state=sa.state, timed_state=sa.timed_state, Base=sa.StatefulAutonomous, H=H)
     src = f"class M(Base):\n    MODE_NAME = {name!r}\n"
+    if shape == "inherit":
+        src = f"class Parent(Base):\n    pass\nclass M(Parent):\n    MODE_NAME = {name!r}\n"
     for i, (sn, dur, nxt, first) in enumerate(SHAPES[shape]):
         perm = PERMS[(variant + i) % 6]
         if dur is None:
             deco = "@state(first=True)" if first else "@state"
         else:
             deco = f"@timed_state(duration={dur!r}, next_state={nxt!r}, first={first!r})"
-        src += f"    {deco}\n    def {sn}(self, {', '.join(perm)}):\n        H.call(self, {sn!r}, tm, state_tm, initial_call)\n"
+        fdef = f"    {deco}\n    def {sn}(self, {', '.join(perm)}):\n        H.call(self, {sn!r}, tm, state_tm, initial_call)\n"
+        if shape == "inherit" and i < 2:
+            # defined on the parent class
+            src = src.replace("class Parent(Base):\n    pass\n", "class Parent(Base):\n" + fdef) if "    pass\n" in src else src.replace("class M(Parent):", fdef + "class M(Parent):")
+        else:
+            src += fdef
     exec(compile(src, f"<mode {shape}>", "exec"), ns)
     return ns["M"]
 
@@ -98,7 +107,13 @@ def run(c, job):
     name = f"M{_ID[0]}" if not world.is_sym() else "M"
     H = Rec(c, cfg, shape)
     M = build_mode(shape, job.get("variant", 0), H, name)
-    mode = M()
+    try:
+        mode = M()
+    except Exception as e:
+        c.prove("C15.build legal-mode-definition-constructs", False, info=dict(shape=shape, exc=repr(e)[:160]))
+        H.meta, H.periods = {}, []
+        c.summary = dict(shape=shape, construct_failed=repr(e)[:100])
+        return H
     table = ntcore.NetworkTableInstance.getDefault().getTable("SmartDashboard")
     meta = {sn: dict(dur=dur, next=nxt, first=first) for sn, dur, nxt, first in SHAPES[shape]}
     H.meta = meta
@@ -251,10 +266,10 @@ class C15(Spec):
 
     def jobs(self, tier):
         if tier == "quick":
-            return [mkjob("chain", 5, 2), mkjob("loop", 5, 1), mkjob("tchain", 5, 1), mkjob("branch", 4, 2),
+            return [mkjob("inherit", 5, 1, variant=2), mkjob("inherit", 3, 1, periods=2, variant=3), mkjob("chain", 5, 2), mkjob("loop", 5, 1), mkjob("tchain", 5, 1), mkjob("branch", 4, 2),
                     mkjob("chain", 3, 2, periods=2, variant=1), mkjob("loop", 3, 1, periods=2, variant=2),
                     mkjob("tchain", 3, 1, periods=2, variant=3)]
-        return [mkjob("chain", 7, 2, variant=1), mkjob("loop", 8, 2, variant=2), mkjob("tchain", 8, 1, variant=3), mkjob("branch", 6, 2, variant=4),
+        return [mkjob("inherit", 7, 2, variant=1), mkjob("inherit", 4, 2, periods=3, variant=4), mkjob("chain", 7, 2, variant=1), mkjob("loop", 8, 2, variant=2), mkjob("tchain", 8, 1, variant=3), mkjob("branch", 6, 2, variant=4),
                 mkjob("chain", 4, 2, periods=3, variant=5), mkjob("loop", 4, 2, periods=2, variant=0), mkjob("tchain", 4, 2, periods=3, variant=1),
                 mkjob("branch", 4, 2, periods=2, variant=2)]
 
